@@ -19,8 +19,14 @@ Definition tracked (k : kind) : bool := match k with KHandler | KProcessor | KSi
 Definition busy (x : dev) : bool := match d_part x with Some _ => true | None => false end.
 Definition bexp (x : dev) : Z := if busy x then 1 else 0.
 
-Definition tsafe (g : dev -> Prop) (f : dev -> dev) : Prop :=
-  forall x, g x -> d_kind (f x) = d_kind x /\ (tracked (d_kind x) = true -> busy (f x) = busy x).
+(** a second, purely local invariant carried by the same steps (C08, after the repair of D9): a handler, processor or sink that
+    reports a waiting-for-part time has both slots empty *)
+Definition WaitInv (x : dev) : Prop := tracked (d_kind x) = true -> d_wait_since x <> None -> d_part x = None /\ d_out x = None.
+
+(** [st] (strict): whether the steps also carry WaitInv — everything does except System initialisation, which stamps devices
+    without looking at their slots *)
+Definition tsafe (st : bool) (g : dev -> Prop) (f : dev -> dev) : Prop :=
+  forall x, g x -> d_kind (f x) = d_kind x /\ (tracked (d_kind x) = true -> busy (f x) = busy x) /\ (st = true -> WaitInv x -> WaitInv (f x)).
 
 Definition tquiet (c : fcmd) : Prop :=
   match c with FSched _ _ _ (AFinishCycle _) => False | FSched _ _ _ _ | FData _ _ _ => True | _ => False end.
@@ -42,34 +48,51 @@ Inductive LOC (d : Z) : nat -> fw -> fw -> Prop :=
 | LOC_refl w : LOC d 0 w w
 | LOC_step n m w1 w2 w3 : lstep0 d n w1 w2 -> LOC d m w2 w3 -> LOC d (n + m) w1 w3.
 
-Inductive jstep (nw : Z) : fw -> fw -> Prop :=
-| tj_dev w d g f : tsafe g f -> g (getd w d) -> jstep nw w (updd w d f)
-| tj_emit w c : temit_ok w c -> jstep nw w (emitf w c)
-| tj_quiet w w' : f_devs w' = f_devs w -> (exists l, f_out w' = l ++ f_out w /\ Forall tquiet l) -> (okf w' = true -> okf w = true) -> jstep nw w w'
-| tj_dead w w' : okf w' = false -> jstep nw w w'
-| tj_everywhere w pid f : jstep nw w (upd_part_everywhere pid f w)
-| tj_block w w' d n : LOC d n w w' -> (tracked (d_kind (getd w d)) = true -> Z.of_nat n = bexp (getd w' d) - bexp (getd w d)) -> jstep nw w w'
-| tj_cancel_block w w1 d : LOC d 0 w w1 -> (tracked (d_kind (getd w d)) = true -> busy (getd w1 d) = false) -> jstep nw w (emitf w1 (FCancel d)).
+Inductive jstep (st : bool) (nw : Z) : fw -> fw -> Prop :=
+| tj_dev w d g f : tsafe st g f -> g (getd w d) -> jstep st nw w (updd w d f)
+| tj_emit w c : temit_ok w c -> jstep st nw w (emitf w c)
+| tj_quiet w w' : f_devs w' = f_devs w -> (exists l, f_out w' = l ++ f_out w /\ Forall tquiet l) -> (okf w' = true -> okf w = true) -> jstep st nw w w'
+| tj_dead w w' : okf w' = false -> jstep st nw w w'
+| tj_everywhere w pid f : jstep st nw w (upd_part_everywhere pid f w)
+| tj_block w w' d n : LOC d n w w' -> (tracked (d_kind (getd w d)) = true -> Z.of_nat n = bexp (getd w' d) - bexp (getd w d)) ->
+                      (st = true -> WaitInv (getd w d) -> WaitInv (getd w' d)) -> jstep st nw w w'
+| tj_cancel_block w w1 d : LOC d 0 w w1 -> (tracked (d_kind (getd w d)) = true -> busy (getd w1 d) = false) ->
+                           (st = true -> WaitInv (getd w d) -> WaitInv (getd w1 d)) -> jstep st nw w (emitf w1 (FCancel d)).
 
-Inductive RJ (nw : Z) : fw -> fw -> Prop :=
-| RJ_refl w : RJ nw w w
-| RJ_step w1 w2 w3 : jstep nw w1 w2 -> RJ nw w2 w3 -> RJ nw w1 w3.
+Inductive RJ (st : bool) (nw : Z) : fw -> fw -> Prop :=
+| RJ_refl w : RJ st nw w w
+| RJ_step w1 w2 w3 : jstep st nw w1 w2 -> RJ st nw w2 w3 -> RJ st nw w1 w3.
+
+Ltac wi x G :=
+  let H := fresh "H" in let T := fresh "T" in let W := fresh "W" in
+  unfold WaitInv; cbn; intro H;
+  first [ exact H
+        | (intros T W; exfalso; apply W; reflexivity)
+        | (intros T W; rewrite G in T; discriminate)
+        | (intros T W; destruct (H T W) as [? ?]; split; first [assumption | reflexivity])
+        | (intros T W; exact G)
+        | (intros T W; apply H; [exact T|exact G])
+        | (intros T W; apply H; [exact T|congruence])
+        | (intros T W; exfalso; apply G; assumption) ].
 
 Ltac kt :=
   let x := fresh "x" in let G := fresh "G" in
   intros x G;
   unfold t_accept_sink, t_accept_proc, t_accept_buffer, t_accept, t_shutdown, t_restore, t_supplied, t_buf_pop, t_buf_store, t_map_slot,
          t_generated, t_clear_out, t_clear_part, t_batch_single, t_batch_full, t_batch_more, t_reserved,
-         t_waiting_res, t_waiting_ds, t_set_cycle, t_add_offset, t_reset_offset, t_block, t_budget, dev_set_wait, dev_add_value;
-  cbv zeta;
+         t_waiting_res, t_waiting_ds, t_set_cycle, t_add_offset, t_reset_offset, t_block, t_budget, t_down_del, t_down_add, t_up, dev_set_wait, dev_add_value;
+  cbv zeta; cbn [negb];
   repeat match goal with
+         | |- context[if true then _ else _] => progress cbn [negb]
+         | |- context[if false then _ else _] => progress cbn [negb]
          | |- context[if ?b then _ else _] => match type of b with bool => destruct b end
-         | |- context[match d_wait_since ?y with _ => _ end] => destruct (d_wait_since y)
+         | |- context[match d_wait_since ?y with _ => _ end] => destruct (d_wait_since y) eqn:?
          | |- context[match d_buf ?y with _ => _ end] => destruct (d_buf y) as [|[? ?] ?]
          end;
   unfold busy; cbn;
-  first [ solve [split; [reflexivity|intros _; reflexivity]]
-        | solve [split; [reflexivity|let TK := fresh "TK" in intro TK; rewrite G in TK; discriminate]] ].
+  (split; [reflexivity|split;
+     [first [ solve [intros _; reflexivity] | solve [let TK := fresh "TK" in intro TK; rewrite G in TK; discriminate] ]
+     |intros _; wi x G]]).
 
 (** * LOC *)
 Lemma LOC_one d n a b : lstep0 d n a b -> LOC d n a b.
@@ -172,15 +195,30 @@ Proof.
   rewrite A, B, C, E. auto.
 Qed.
 
+Lemma run_cbop_wait nw d isf lost w o d' : d_wait_since (getd (run_cbop nw d true isf lost w o) d') = d_wait_since (getd w d').
+Proof.
+  unfold run_cbop. destruct (negb (okf w)); [auto|].
+  assert (U : forall f, (forall x, d_wait_since (f x) = d_wait_since x) -> d_wait_since (getd (updd w d f) d') = d_wait_since (getd w d')).
+  { intros f H. apply getd_updd_field, H. }
+  destruct o; try (apply U; intro x; reflexivity); try reflexivity.
+  - destruct (d_part (getd w d)) as [i|]; [|auto]. destruct (is_batch i); [unfold failf; destruct (f_err w =? 0); auto|]. apply U. intro x. reflexivity.
+  - destruct isf; reflexivity.
+Qed.
+Lemma run_cbops_wait nw d isf lost ops d' : forall w, d_wait_since (getd (run_cbops nw d true isf lost ops w) d') = d_wait_since (getd w d').
+Proof.
+  unfold run_cbops. induction ops as [|o ops IH]; intro w; cbn; [auto|]. rewrite IH. apply run_cbop_wait.
+Qed.
+
 Section Timer.
+Variable st : bool.
 Variable nw : Z.
-Notation RJ := (RJ nw).
+Notation RJ := (RJ st nw).
 
 Lemma RJ_trans a b c : RJ a b -> RJ b c -> RJ a c.
 Proof. induction 1 as [|w1 w2 w3 S _ IH]; intro Hbc; [exact Hbc|]. econstructor; [exact S|apply IH, Hbc]. Qed.
-Lemma RJ_one a b : jstep nw a b -> RJ a b.
+Lemma RJ_one a b : jstep st nw a b -> RJ a b.
 Proof. intro H. econstructor; [exact H|constructor]. Qed.
-Lemma RJ_dev w d g f : tsafe g f -> g (getd w d) -> RJ w (updd w d f).
+Lemma RJ_dev w d g f : tsafe st g f -> g (getd w d) -> RJ w (updd w d f).
 Proof. intros. apply RJ_one. econstructor; eauto. Qed.
 Lemma RJ_tquiet_emit w c : tquiet c -> RJ w (emitf w c).
 Proof. intro Q. apply RJ_one, tj_quiet; [reflexivity|exists [c]; split; [reflexivity|constructor; [exact Q|constructor]]|auto]. Qed.
@@ -230,8 +268,8 @@ Proof.
   { intro w0. apply RJ_fold. intros; apply IH. }
   assert (SW : RJ w (fold_left (fun w1 u => signal f nw false w1 u)
                                (d_up (getd (wait_if_empty nw w d) d)) (wait_if_empty nw w d))).
-  { unfold wait_if_empty. destruct (d_part (getd w d)); [apply NU|]. destruct (d_out (getd w d)); [apply NU|].
-    jdev w d (dev_set_wait nw true false) (fun _ : dev => True); [exact I|apply NU]. }
+  { unfold wait_if_empty. destruct (d_part (getd w d)) eqn:PP; [apply NU|]. destruct (d_out (getd w d)) eqn:OO; [apply NU|].
+    jdev w d (dev_set_wait nw true false) (fun y : dev => d_part y = None /\ d_out y = None); [split; assumption|apply NU]. }
   destruct m.
   - destruct (d_kind x); try apply NU; try exact SW.
     + destruct (inf_ltb (d_level x) (d_capacity x)); [exact SW|Jt].
@@ -241,8 +279,14 @@ Proof.
     destruct (aget (d_group x) (f_groups w)); [apply IH|Jt].
 Qed.
 
-Lemma tsafe_map_slot slot f : tsafe (fun _ => True) (t_map_slot slot f).
-Proof. intros x _. unfold t_map_slot, busy. destruct slot; cbn; (split; [reflexivity|intros _]); [destruct (d_part x)|]; reflexivity. Qed.
+Lemma tsafe_map_slot slot f : tsafe st (fun _ => True) (t_map_slot slot f).
+Proof.
+  intros x _. unfold t_map_slot, busy, WaitInv. destruct slot; cbn; (split; [reflexivity|split]).
+  - intros _. destruct (d_part x); reflexivity.
+  - intros _ H T W. destruct (H T W) as [P O]. rewrite P. auto.
+  - intros _. reflexivity.
+  - intros _ H T W. destruct (H T W) as [P O]. rewrite O. auto.
+Qed.
 
 Lemma RJ_run_cbop d slot isf lost w o : RJ w (run_cbop nw d slot isf lost w o).
 Proof.
@@ -291,7 +335,7 @@ Proof.
   assert (D : f_devs w' = f_devs w) by (pose proof (proj1 (generate_devs w d)) as X; rewrite G in X; exact X).
   apply (RJ_trans w w').
   { destruct (generate_nextid w d) as [z Hz]. rewrite G in Hz. cbn in Hz. subst w'. apply RJ_same; reflexivity. }
-  jdev w' d (t_generated it) (fun _ : dev => True); [exact I|apply RJ_sched_pass].
+  jdev w' d (t_generated it) (fun y : dev => d_kind y = KSource); [rewrite (getd_other_fields w w' d D); exact K|apply RJ_sched_pass].
 Qed.
 
 Lemma RJ_sched_finish_untracked fuel w d : tracked (d_kind (getd w d)) = false -> RJ w (sched_finish fuel nw w d).
@@ -336,6 +380,12 @@ Proof.
   jdev w d t_clear_part (fun y : dev => d_kind y = KBatcher); [exact KB|Jt].
 Qed.
 
+Lemma tsafe_untracked f : (forall y, d_kind (f y) = d_kind y) -> tsafe st (fun y => tracked (d_kind y) = false) f.
+Proof.
+  intros K x G. split; [apply K|]. split; [intro T; rewrite G in T; discriminate|].
+  intros _ _ T. rewrite K, G in T. discriminate.
+Qed.
+
 (** * taking a part in *)
 (** untracked kinds (buffer, batcher, source): step by step *)
 Lemma RJ_accept_untracked fuel w d it : tracked (d_kind (getd w d)) = false -> RJ w (accept fuel nw w d it).
@@ -346,10 +396,10 @@ Proof.
   assert (R2 : RJ w w2).
   { unfold w2, accept_first. destruct k eqn:K; try discriminate.
     all: try (apply (RJ_dev w d (fun y => tracked (d_kind y) = false)); [|fold k; rewrite K; reflexivity];
-              intros x G; split; [unfold t_accept, dev_set_wait; reflexivity|intro T; rewrite G in T; discriminate]).
-    eapply RJ_trans; [|apply RJ_data].
+              apply tsafe_untracked; intro y; unfold t_accept, dev_set_wait; reflexivity).
+    apply (RJ_trans w (updd w d (t_accept_buffer nw it1))); [|apply RJ_data].
     apply (RJ_dev w d (fun y => tracked (d_kind y) = false)); [|fold k; rewrite K; reflexivity].
-    intros x G. split; [unfold t_accept_buffer, t_accept, dev_set_wait; reflexivity|intro T; rewrite G in T; discriminate]. }
+    apply tsafe_untracked. intro y. unfold t_accept_buffer, t_accept, dev_set_wait. reflexivity. }
   eapply RJ_trans; [exact R2|]. unfold accept_rest.
   set (w3 := rec_part w2 L_RECEIVED d nw it1). apply (RJ_trans w2 w3); [apply RJ_data|].
   set (w4 := run_cbops nw d true false (-1) (d_on_receive (getd w3 d)) w3).
@@ -381,18 +431,21 @@ Proof.
   unfold accept. set (k := d_kind (getd w d)) in *. set (it1 := item_add_hist d it).
   set (w2 := accept_first nw k w d it1).
   (* the fields of d after the part was taken in *)
-  assert (F2 : d_kind (getd w2 d) = k /\ d_out (getd w2 d) = None /\ d_shut (getd w2 d) = d_shut (getd w d) /\ busy (getd w2 d) = true /\ LOC d 0 w w2).
+  assert (F2 : d_kind (getd w2 d) = k /\ d_out (getd w2 d) = None /\ d_shut (getd w2 d) = d_shut (getd w d) /\ busy (getd w2 d) = true /\
+               d_wait_since (getd w2 d) = None /\ LOC d 0 w w2).
   { unfold w2, accept_first. destruct k eqn:K; try discriminate.
     - rewrite getd_updd_same, AM. unfold t_accept, dev_set_wait, busy. cbn. fold k. repeat split; auto. apply LOC_dev. reflexivity.
     - rewrite getd_updd_same, AM. unfold t_accept_proc, t_accept, dev_set_wait, busy. cbn. fold k. repeat split; auto. apply LOC_dev. reflexivity.
     - rewrite getd_updd_same, AM. unfold t_accept_sink, t_accept, dev_set_wait, dev_add_value, busy. cbv zeta.
       destruct (item_value it1 =? 0); cbn; fold k; (repeat split; auto; apply LOC_dev; intro y; destruct (item_value it1 =? 0); reflexivity). }
-  destruct F2 as [K2 [O2 [S2 [B2 L2]]]].
+  destruct F2 as [K2 [O2 [S2 [B2 [W2 L2]]]]].
   unfold accept_rest.
   set (w3 := rec_part w2 L_RECEIVED d nw it1).
   set (w4 := run_cbops nw d true false (-1) (d_on_receive (getd w3 d)) w3).
   destruct (run_cbops_keep nw d false (-1) (d_on_receive (getd w3 d)) d w3) as [K4 [O4 [S4 B4]]]. fold w4 in K4, O4, S4, B4.
   change (getd w3 d) with (getd w2 d) in K4, O4, S4, B4. rewrite K2 in K4. rewrite O2 in O4. rewrite S2 in S4. rewrite B2 in B4.
+  assert (W4 : d_wait_since (getd w4 d) = None).
+  { unfold w4. rewrite run_cbops_wait. change (getd w3 d) with (getd w2 d). exact W2. }
   assert (L4 : LOC d 0 w w4).
   { eapply LOC_trans0; [exact L2|]. eapply LOC_trans0; [apply LOC_data|apply LOC_run_cbops]. }
   destruct (okf w4) eqn:OK4; cbn [negb]; [|apply RJ_one, tj_dead; exact OK4].
@@ -414,17 +467,20 @@ Proof.
       destruct E5 as [K5 [OP5 [P5 O5]]].
       set (wm := updd w5 d (tfin (d_kind (getd w5 d)) it')).
       apply (RJ_trans w wm).
-      + apply RJ_one, (tj_block nw w wm d 0).
+      + apply RJ_one, (tj_block st nw w wm d 0).
         * replace 0%nat with (0 + 0)%nat by reflexivity. eapply LOC_trans; [exact L5|]. apply LOC_dev.
           intro y. unfold tfin. destruct (d_kind (getd w5 d)); reflexivity.
         * intros _. unfold wm. rewrite getd_updd_same. unfold w5 at 1. rewrite amem_updd, AM4. rewrite K5.
           assert (B0 : bexp (getd w d) = 0) by (unfold bexp, busy; rewrite P0; reflexivity). rewrite B0.
           unfold tfin. destruct k; try discriminate; reflexivity.
+        * intros _ _ _ WS. exfalso. apply WS. unfold wm. rewrite getd_updd_same. unfold w5 at 1. rewrite amem_updd, AM4, X5.
+          unfold tfin. fold x in W4. destruct (d_kind (t_reset_offset x)); cbn; exact W4.
       + apply RJ_finish_tail; [rewrite K5; exact TK|exact OP5|exact P5|exact O5].
     - (* the timer *)
-      apply RJ_one, (tj_block nw w _ d 1).
+      apply RJ_one, (tj_block st nw w _ d 1).
       + replace 1%nat with (0 + 1)%nat by reflexivity. eapply LOC_trans; [exact L5|]. apply LOC_one, lo_fin.
-      + intros _. change (getd (emitf w5 ?c) d) with (getd w5 d). rewrite X5. unfold bexp, busy. cbn. fold x. rewrite PX, P0. reflexivity. }
+      + intros _. change (getd (emitf w5 ?c) d) with (getd w5 d). rewrite X5. unfold bexp, busy. cbn. fold x. rewrite PX, P0. reflexivity.
+      + intros _ _ _ WS. exfalso. apply WS. change (getd (emitf w5 ?c) d) with (getd w5 d). rewrite X5. cbn. fold x in W4. exact W4. }
   destruct k eqn:K; try discriminate; cbv zeta; rewrite OP4, PX; cbn [andb]; exact G.
 Qed.
 
@@ -536,24 +592,30 @@ Proof.
   (* the fields of d that [shutdown] reads *)
   assert (X1 : getd w1 d = t_fail_clear nw x) by (unfold w1; rewrite getd_updd_same, AM; reflexivity).
   assert (AM1 : amem d (f_devs w1) = true) by (unfold w1; rewrite amem_updd; exact AM).
-  assert (F3 : d_kind (getd w3 d) = KProcessor /\ d_shut (getd w3 d) = d_shut x /\ busy (getd w3 d) = false /\ amem d (f_devs w3) = true).
+  assert (WI1 : forall o, WaitInv x -> WaitInv (t_reserved o (t_fail_clear nw x))).
+  { intros o H T W. unfold t_reserved, t_fail_clear, t_stop_use in *. cbn in *. destruct (H T W) as [_ OO]. auto. }
+  assert (F3 : d_kind (getd w3 d) = KProcessor /\ d_shut (getd w3 d) = d_shut x /\ busy (getd w3 d) = false /\ amem d (f_devs w3) = true /\
+               (WaitInv x -> WaitInv (getd w3 d))).
   { change (getd w3 d) with (getd w2 d). change (f_devs w3) with (f_devs w2). unfold w2, release_reserved.
-    destruct (d_reserved (getd w1 d)) as [i|].
+    destruct (d_reserved (getd w1 d)) as [i|] eqn:RV.
     - set (wr := rm_call w1 (release_obj nw i None)).
       assert (AMr : amem d (f_devs wr) = true) by (unfold wr; rewrite (proj1 (rm_call_devs w1 _)); exact AM1).
       rewrite getd_updd_same, amem_updd, AMr.
       rewrite (getd_other_fields w1 wr d (proj1 (rm_call_devs w1 _))). rewrite X1.
-      unfold t_reserved, t_fail_clear, t_stop_use, busy. cbn. auto.
-    - rewrite X1, AM1. unfold t_fail_clear, t_stop_use, busy. cbn. auto. }
-  destruct F3 as [K3 [S3 [B3 AM3]]].
+      split; [|split; [|split; [|split]]]; try (unfold t_reserved, t_fail_clear, t_stop_use, busy; cbn; auto; fail). apply WI1.
+    - rewrite X1, AM1. split; [|split; [|split; [|split]]]; try (unfold t_fail_clear, t_stop_use, busy; cbn; auto; fail).
+      intro H. replace (t_fail_clear nw x) with (t_reserved (d_reserved (t_fail_clear nw x)) (t_fail_clear nw x)); [apply WI1, H|].
+      unfold t_reserved. cbn. destruct x; reflexivity. }
+  destruct F3 as [K3 [S3 [B3 [AM3 WI3]]]].
   unfold shutdown. fold w1 w2 lost w3. set (x3 := getd w3 d) in *.
   assert (IP3 : is_processor x3 = true) by (unfold is_processor; rewrite K3; reflexivity).
   rewrite IP3. cbn [negb]. rewrite S3.
   destruct (d_shut x) eqn:S.
-  - eapply RJ_trans; [|apply RJ_run_cbops]. apply RJ_one, (tj_cancel_block nw w w3 d); [exact L3|intros _; exact B3].
-  - eapply RJ_trans; [|apply RJ_run_cbops]. apply RJ_one, (tj_cancel_block nw w (updd w3 d (t_shutdown nw)) d).
+  - eapply RJ_trans; [|apply RJ_run_cbops]. apply RJ_one, (tj_cancel_block st nw w w3 d); [exact L3|intros _; exact B3|intros _; exact WI3].
+  - eapply RJ_trans; [|apply RJ_run_cbops]. apply RJ_one, (tj_cancel_block st nw w (updd w3 d (t_shutdown nw)) d).
     + eapply LOC_trans0; [exact L3|apply LOC_dev]. intro y. unfold t_shutdown, dev_set_wait. reflexivity.
     + intros _. rewrite getd_updd_same, AM3. fold x3. unfold t_shutdown, dev_set_wait, busy in *. cbn. exact B3.
+    + intros _ _ _ WS. exfalso. apply WS. rewrite getd_updd_same, AM3. reflexivity.
 Qed.
 
 Lemma RJ_restore fuel w d : RJ w (restore fuel nw w d).
@@ -630,13 +692,14 @@ Proof.
   unfold rewire. set (x := getd w d). destruct (existsb (bad_up d w) ups); [Jt|].
   match goal with |- RJ w (fold_left _ ups (updd (fold_left _ _ ?w0') d _)) => set (w0 := w0') end.
   assert (R0 : RJ w w0).
-  { unfold w0. destruct (is_holder (d_kind x)); [|Jt]. destruct (d_wait_since x); [|Jt]. apply (RJ_dev w d (fun _ => True)); [kt|exact I]. }
+  { unfold w0. destruct (is_holder (d_kind x)); [|Jt]. destruct (d_wait_since x) eqn:WS; [|Jt].
+    apply (RJ_dev w d (fun y => d_wait_since y <> None)); [kt|fold x; rewrite WS; discriminate]. }
   apply (RJ_trans w w0); [exact R0|].
   set (w1 := fold_left (fun w' u => updd w' u (t_down_del d)) (d_up x) w0).
-  apply (RJ_trans w0 w1); [unfold w1; apply RJ_fold; intros w' u; apply (RJ_dev w' u (fun _ => True)); [intros y _; split; [reflexivity|intros _; reflexivity]|exact I]|].
-  apply (RJ_trans w1 (updd w1 d (t_up ups))); [apply (RJ_dev w1 d (fun _ => True)); [intros y _; split; [reflexivity|intros _; reflexivity]|exact I]|].
+  apply (RJ_trans w0 w1); [unfold w1; apply RJ_fold; intros w' u; apply (RJ_dev w' u (fun _ => True)); [kt|exact I]|].
+  apply (RJ_trans w1 (updd w1 d (t_up ups))); [apply (RJ_dev w1 d (fun _ => True)); [kt|exact I]|].
   apply RJ_fold. intros w' u. destruct (existsb (Z.eqb d) (d_down (getd w' u))); [Jt|].
-  apply (RJ_trans w' (updd w' u (t_down_add d))); [apply (RJ_dev w' u (fun _ => True)); [intros y _; split; [reflexivity|intros _; reflexivity]|exact I]|apply RJ_signal].
+  apply (RJ_trans w' (updd w' u (t_down_add d))); [apply (RJ_dev w' u (fun _ => True)); [kt|exact I]|apply RJ_signal].
 Qed.
 
 Lemma RJ_run_uop fuel w o : RJ w (run_uop fuel nw w o).
@@ -670,21 +733,25 @@ Proof.
   - apply RJ_fold. intros. apply RJ_run_uop.
 Qed.
 
-Lemma RJ_init_dev fuel w d : RJ w (init_dev fuel nw w d).
+(** System initialisation stamps every holder as waiting without looking at its slots: not a strict step *)
+Lemma RJ_init_dev fuel w d : st = false -> RJ w (init_dev fuel nw w d).
 Proof.
-  unfold init_dev. set (x := getd w d). destruct (is_holder (d_kind x)); [|Jt].
+  intro NS. unfold init_dev. set (x := getd w d). destruct (is_holder (d_kind x)); [|Jt].
   set (w1 := updd w d (fun y => dev_set_wait nw true true y)).
   assert (K1 : d_kind (getd w1 d) = d_kind x).
   { unfold w1. apply getd_updd_field. intro y. unfold dev_set_wait. cbn. destruct (d_wait_since y); reflexivity. }
-  assert (R1 : RJ w w1) by (apply (RJ_dev w d (fun _ => True)); [kt|exact I]).
+  assert (R1 : RJ w w1).
+  { apply (RJ_dev w d (fun _ => True)); [|exact I]. intros y _. unfold dev_set_wait, busy. cbn.
+    destruct (d_wait_since y); cbn; (split; [reflexivity|split; [intros _; reflexivity|rewrite NS; discriminate]]). }
   destruct (d_kind x) eqn:K; try exact R1.
-  - eapply RJ_trans; [exact R1|]. apply (RJ_dev w1 d (fun _ => True)); [|exact I]. intros y _. split; [reflexivity|intros _; reflexivity].
+  - eapply RJ_trans; [exact R1|]. apply (RJ_dev w1 d (fun _ => True)); [|exact I]. intros y _. split; [reflexivity|split; [intros _; reflexivity|]].
+    intros _ H. exact H.
   - eapply RJ_trans; [exact R1|]. apply RJ_sched_finish_untracked. rewrite K1. reflexivity.
 Qed.
 
-Lemma RJ_init_world fuel w : RJ w (init_world fuel nw w).
+Lemma RJ_init_world fuel w : st = false -> RJ w (init_world fuel nw w).
 Proof.
-  unfold init_world. eapply RJ_trans; [apply RJ_rm_call|]. apply RJ_fold. intros. apply RJ_init_dev.
+  intro NS. unfold init_world. eapply RJ_trans; [apply RJ_rm_call|]. apply RJ_fold. intros. apply RJ_init_dev, NS.
 Qed.
 
 End Timer.
